@@ -29,6 +29,15 @@ turns it into the bound the property asks for, mirroring `Thm/C08Enc.lean` (`ELo
   caller may push any number of empty chunks.
 * `DReplLoop` / **`repl_caller_loop_bound`**: the same bound for the caller loop over the
   with-replacement methods (`Model.replLoop`; inner calls admissible as `ReplAdmissible` states).
+* **Termination, not only a bound on completed loops.**  Every derivation of `DLoop` / `DReplLoop` ends in
+  the `final` constructor, so the bounds above say nothing about a loop that never gets there.
+  `DLoopPre` / `DReplLoopPre` are the same relations with an extra constructor `start` that ends a
+  derivation anywhere: "the caller has made `n` calls *so far*" (prefix-closed:
+  `DLoopPre.prefix_closed`; complete runs are prefixes: `DLoop.toPre`).  `prefix_calls_le_events`,
+  **`caller_loop_prefix_bound`**, **`repl_caller_loop_prefix_bound`**: the same bounds for every prefix;
+  **`caller_loop_terminates`** / `repl_caller_loop_terminates`: there is no prefix with more than
+  `bytes + chunks + 6` calls, hence the loop cannot go on for ever.  The theorems about complete loops
+  are corollaries.
 -/
 namespace EncodingRs.Thm.C08Loop
 open EncodingRs EncodingRs.Model EncodingRs.Lemmas.Core EncodingRs.Lemmas.FamLaws
